@@ -10,6 +10,10 @@ import (
 
 type IfUnless struct {
 	conditionType string
+	// isAndChain: the condition being read joins several narrowing tests with &&. Its
+	// negation (the else branch, or the body of unless) says nothing about any
+	// single test, so nothing is narrowed there
+	isAndChain bool
 	originalTs    map[string][]base.T
 	narrowTs      map[string][]base.T
 	ifNarrowTs    map[string][]base.T
@@ -45,6 +49,11 @@ func (i *IfUnless) setConditionalCtx(
 	skipNarrow bool,
 ) error {
 
+	// a chain of narrowing tests narrows the branch where all of them hold
+	// (the body of if, the else of unless); its negation narrows nothing
+	isBodyNarrowed := !(i.isAndChain && i.conditionType == "unless")
+	isElseNarrowed := !(i.isAndChain && i.conditionType == "if")
+
 	classT := i.convertClassNameToTobject(class)
 
 	var isNarrow bool
@@ -66,20 +75,22 @@ func (i *IfUnless) setConditionalCtx(
 
 	switch isNarrow {
 	case true:
-		if !skipNarrow {
+		if !skipNarrow && isElseNarrowed {
 			i.narrowTs[object] = append(i.narrowTs[object], *classT)
 		}
 
 		i.ifNarrowTs[object] = append(i.ifNarrowTs[object], *classT)
 
-		base.SetValueT(
-			ctx.GetFrame(),
-			ctx.GetClass(),
-			ctx.GetMethod(),
-			object,
-			base.MakeUnifiedT(i.ifNarrowTs[object]),
-			ctx.IsDefineStatic,
-		)
+		if isBodyNarrowed {
+			base.SetValueT(
+				ctx.GetFrame(),
+				ctx.GetClass(),
+				ctx.GetMethod(),
+				object,
+				base.MakeUnifiedT(i.ifNarrowTs[object]),
+				ctx.IsDefineStatic,
+			)
+		}
 
 	default:
 		if skipNarrow {
@@ -129,16 +140,18 @@ func (i *IfUnless) setConditionalCtx(
 			}
 		}
 
-		base.SetValueT(
-			ctx.GetFrame(),
-			ctx.GetClass(),
-			ctx.GetMethod(),
-			object,
-			base.MakeUnifiedT(remaining),
-			ctx.IsDefineStatic,
-		)
+		if isBodyNarrowed {
+			base.SetValueT(
+				ctx.GetFrame(),
+				ctx.GetClass(),
+				ctx.GetMethod(),
+				object,
+				base.MakeUnifiedT(remaining),
+				ctx.IsDefineStatic,
+			)
+		}
 
-		if !skipNarrow {
+		if !skipNarrow && isElseNarrowed {
 			i.narrowTs[object] = remaining
 		}
 	}
@@ -167,6 +180,31 @@ func (i *IfUnless) beforeEval(
 	return nil
 }
 
+// hasAndInCondition looks ahead (on a copy of the parser) whether the
+// condition that starts here joins two or more narrowing tests (nil?, is_a?)
+// with &&. Comparisons (a == 1 && ...) do not narrow and do not count
+func (i *IfUnless) hasAndInCondition(p parser.Parser) bool {
+	hasAnd := false
+	narrowingTestCt := 0
+
+	for {
+		nextT, err := p.Read()
+		if err != nil || nextT == nil || nextT.IsNewLineIdentifier() || nextT.IsTargetIdentifier("then") {
+			break
+		}
+
+		if nextT.IsTargetIdentifier("&&") {
+			hasAnd = true
+		}
+
+		if nextT.IsTargetIdentifiers([]string{"nil?", "is_a?"}) {
+			narrowingTestCt++
+		}
+	}
+
+	return hasAnd && narrowingTestCt >= 2
+}
+
 func (i *IfUnless) getBackupContext(
 	e *Evaluator,
 	p parser.Parser,
@@ -175,6 +213,8 @@ func (i *IfUnless) getBackupContext(
 
 	var zaoriks []func()
 	isOr := false
+
+	i.isAndChain = i.hasAndInCondition(p)
 
 	for {
 		err := i.beforeEval(*e, p, ctx)
